@@ -1,6 +1,7 @@
 """C01 Generated parser accepts exactly the language of the grammar."""
 import common
 import lrcommon
+from props import c01_desugar
 
 LEVEL = "proof"
 
@@ -9,6 +10,7 @@ def run(r):
     r.require_theorems(1)
     r.run_witnesses()
     lrcommon.run_lr(r, "C01", also=('C09',))
+    c01_desugar.run_desugar(r)
     r.assumptions += [
         "per generated grammar the theorem quantifies over all token sequences; the space of grammars is sampled by the generator",
         "the item-set certificate and the grammar come from an in-process run of the real front end + ConstructLALR; the arrays from the file the real generator wrote",
